@@ -31,6 +31,15 @@ func c08Gen(seed uint64, run int, tier string) *Case {
 		c.Cfg["sameseg"] = int64(r.Intn(2))
 		return c
 	}
+	if run%20 == 17 {
+		// a request parked in the implementation on a fid that is clunked meanwhile, and whose number is used again
+		c.Stratum = "clunk-of-a-busy-fid"
+		c.Cfg["special"] = 3
+		c.Cfg["nconn"] = 2
+		c.Cfg["sameseg"] = int64(r.Intn(2))
+		c.Cfg["remove"] = int64(r.Intn(2))
+		return c
+	}
 	if run%20 == 2 || run%20 == 12 {
 		// a Twalk parked in the implementation while a request names its new fid (2), or a Tflush whose
 		// FlushOp.Flush call is parked (12)
@@ -360,6 +369,22 @@ func c08Special(x *Ctx) {
 			rt.YieldUntil(rt.SiteActor, func() bool { return len(fs.HeldInvs()) > 0 || p0.EOF })
 			p0.Write(&Msg{Type: Tstat, Tag: 11, Fid: 2}) // names the fid being made: not judged
 			ms0 = []*Msg{{Type: Tstat, Tag: 12, Fid: 1}, {Type: Twalk, Tag: 13, Fid: 0, Newfid: 3, Wname: []string{"c"}}, {Type: Tstat, Tag: 14, Fid: 0}}
+		} else if kind == 3 {
+			parkedWhat = "a Tstat on fid 1"
+			p0.Write(&Msg{Type: Tstat, Tag: 10, Fid: 1})
+			rt.YieldUntil(rt.SiteActor, func() bool { return len(fs.HeldInvs()) > 0 || p0.EOF })
+			// the fid is clunked (or removed) under the parked request: that is answered; then its number is
+			// introduced again by a walk and an attach: whatever they are told, they are told now
+			typ := uint8(Tclunk)
+			if c.cfg("remove") != 0 {
+				typ = Tremove
+			}
+			cl := p0.Write(&Msg{Type: typ, Tag: 15, Fid: 1})[0]
+			others = append(others, cl)
+			for y := 0; y < 60 && cl.Reply == nil && !p0.EOF; y++ {
+				rt.Yield(rt.SiteActor)
+			}
+			ms0 = []*Msg{{Type: Twalk, Tag: 12, Fid: 0, Newfid: 1, Wname: []string{"c"}}, {Type: Tattach, Tag: 13, Fid: 1, Afid: NOFID, Uname: "u0", Nuname: 0}, {Type: Tstat, Tag: 14, Fid: 0}}
 		} else {
 			parkedWhat = "a Tstat and the FlushOp.Flush call of the Tflush naming it"
 			p0.Write(&Msg{Type: Tstat, Tag: 10, Fid: 1})
